@@ -81,7 +81,7 @@ func init() {
 	register(&PropSpec{ID: "C10",
 		Explanation: "Structural clauses of Fragment: frame condition; every new piece is a whole-value copy of its source item; every path from an insertion to a return passes Order(); CLI fragment → Fragment(-f). Not decided: where the cuts fall (the known last-listed-cue bound fault is a run-time bound and stays invisible).",
 		Assumptions: commonAssumptions,
-		Rules:       []Rule{{"frame", ruleFrame("Subtitles.Fragment")}, {"whole-copy", ruleWholeCopy}, {"order-after-insert", ruleOrderAfter}, {"cli", ruleCLIDispatch("fragment")}},
+		Rules:       []Rule{{"frame", ruleFrame("Subtitles.Fragment")}, {"whole-copy", ruleWholeCopy}, {"order-after-insert", ruleOrderAfter}, {"cli", ruleCLIDispatch("fragment")}, {"cli-guards", ruleCLIGuards}},
 	})
 	register(&PropSpec{ID: "C11",
 		Explanation: "Structural clauses of Unfragment: frame condition (only EndAt and the slice); delete-rewind on the inner index; Order() dominates the scan; the merge test compares Item.String() of both cues and that function reads every run's text; CLI unfragment. Not decided: which pairs merge, the fixpoint, the inverse law against Fragment.",
@@ -101,11 +101,11 @@ func init() {
 	register(&PropSpec{ID: "C14",
 		Explanation: "Structural clauses of ForceDuration: frame (only EndAt and the slice); the filler is appended only on the true edge of the addDummyItem parameter; every store is dominated by the false edge of Duration() == d whose true edge returns at once; Duration has no effect. Not decided: which cues are trimmed, the resulting duration, the filler interval.",
 		Assumptions: commonAssumptions,
-		Rules:       []Rule{{"frame", ruleFrame("Subtitles.ForceDuration")}, {"frame-duration", ruleFrame("Subtitles.Duration")}, {"guards", ruleForceDurationGuards}},
+		Rules:       []Rule{{"frame", ruleFrame("Subtitles.ForceDuration")}, {"frame-duration", ruleFrame("Subtitles.Duration")}, {"guards", ruleForceDurationGuards}, {"cut-and-filler", ruleForceDurationScan}},
 	})
 	register(&PropSpec{ID: "C15",
 		Explanation: "Structural clauses of ApplyLinearCorrection: frame (only StartAt/EndAt, never the slice or its order); both boundaries are mapped by the identical expression (tree isomorphism up to the field swap); CLI passes a1, d1, a2, d2 in that order. Not decided: that the expression is the affine map within 1 µs (floating-point values).",
 		Assumptions: commonAssumptions,
-		Rules:       []Rule{{"frame", ruleFrame("Subtitles.ApplyLinearCorrection")}, {"twin-update", ruleTwinUpdate("Subtitles.ApplyLinearCorrection")}, {"full-scan", ruleFullScan("Subtitles.ApplyLinearCorrection")}, {"cli", ruleCLIDispatch("apply-linear-correction")}},
+		Rules:       []Rule{{"frame", ruleFrame("Subtitles.ApplyLinearCorrection")}, {"twin-update", ruleTwinUpdate("Subtitles.ApplyLinearCorrection")}, {"full-scan", ruleFullScan("Subtitles.ApplyLinearCorrection")}, {"cli", ruleCLIDispatch("apply-linear-correction")}, {"cli-guards", ruleCLIGuards}, {"no-overflow", ruleNoOverflow("Subtitles.ApplyLinearCorrection")}},
 	})
 }
